@@ -29,6 +29,11 @@ assert sh("git -C %s status --porcelain --untracked-files=no" % REPO)[1].strip()
 assert sh("git -C %s rev-parse HEAD" % REPO)[1] == sh("git -C /repo rev-parse HEAD")[1], "EVAL_REPO is not at /repo's HEAD"
 env = "OMP_NUM_THREADS=2 PYTHONPATH=%s" % REPO
 CHK = "" if REPO == "/repo" else "VERIF_REPO=%s PYTHONPATH=%s " % (REPO, REPO)
+# BASE_PATCH=<refactors/.../patch.diff>: the seeded change was written against that refactored tree (applied first, kept applied)
+BASE = os.environ.get("BASE_PATCH")
+if BASE:
+    rc, out = sh("git -C %s apply %s" % (REPO, BASE))
+    assert rc == 0, out
 rc_clean, out_clean = sh("cd %s && %s /venv/bin/python -W ignore %s/demo_mutant.py" % (REPO, env, dst))
 rc, out = sh("git -C %s apply %s/patch.diff" % (REPO, dst))
 assert rc == 0, out
@@ -43,9 +48,9 @@ try:
         results[p] = {"exit": r, "violations": sum(1 for l in lines if l.startswith("VIOLATION")), "first": first.strip()[:400],
                       "machinery": [l[:200] for l in lines if l.startswith("MACHINERY")][:2]}
 finally:
-    sh("git -C %s checkout -- ." % REPO)
+    sh("git -C %s checkout -- . ; git -C %s clean -fdq -- pytorch_wavelets" % (REPO, REPO))
     sh("rm -rf /verif/replays")
-meta = {"breaks_property": props[0], "origin": "independent sub-agent given only the property text and a scratch worktree",
+meta = {"breaks_property": props[0], "base_patch": BASE, "origin": "independent sub-agent given only the property text and a scratch worktree",
         "needs": open(os.path.join(dst, "NOTES.md")).read()[:1500] if os.path.exists(os.path.join(dst, "NOTES.md")) else "",
         "demo": {"clean_tree_exit": rc_clean, "mutated_tree_exit": rc_mut, "mutated_output_tail": out_mut.strip().splitlines()[-3:]},
         "checks_on_mutated_tree": results,
